@@ -48,7 +48,7 @@ Fixpoint spec_keys (held : list Z) (ks : list key) : list event * list Z :=
       (e1 ++ e2, h2)
   end.
 
-Definition mask_of (held : list Z) : Z := fold_left (fun m b => Z.setbit m b) held 0.
+Definition mask_of (held : list Z) : Z := fold_right (fun b m => Z.setbit m b) 0 held.
 
 (* ---- the oracle: the implementation's events and final held mask against the spec *)
 Definition event_eqb (a b : event) : bool :=
